@@ -824,7 +824,8 @@ class _ProbeContextInjectorNode(_ProbeNode):
             List[str]: A list of context keys that the processor will add or create
             as a result of execution.
         """
-        return [cls.context_key]
+        base = list(getattr(cls.processor, "get_created_keys", lambda: [])())
+        return base if cls.context_key in base else base + [cls.context_key]
 
     def __str__(self) -> str:
         """
